@@ -122,7 +122,9 @@ pub fn run(run: &mut Run, seed: u64, thorough: bool, replay: Option<&str>, corpu
         if c.starts_with("file_") || c.starts_with("sixel_") {
             c.replacen('_', " ", 1).replacen('_', " ", if c.starts_with("file_") { 1 } else { 0 })
         } else {
-            c.replace('_', " ")
+            // emu_w_h_hex[_labels]: labels may themselves contain underscores
+            let parts: Vec<&str> = c.splitn(5, '_').collect();
+            parts.join(" ")
         }
     };
     if let Some(r) = replay {
